@@ -126,8 +126,9 @@ DISK_FILES = {
     "dl.py": ("dl", "Eps"), "dlib.py": ("dlib", "Alpha"), "dlib_extra/__init__.py": None, "dlib_extra/inner.py": ("dlib_extra.inner", "Beta"),
     "dlib_more.py": ("dlib_more", "Gamma"), "dlibx.py": ("dlibx", "Delta"), "dpack/__init__.py": ("dpack", "Zeta"), "dpack/sub.py": ("dpack.sub", "Eta"),
     "dpack/sub2.py": ("dpack.sub2", "Alpha"), "dpack/inner/__init__.py": None, "dpack/inner/deep.py": ("dpack.inner.deep", "Theta"),
+    "dpack_more/__init__.py": None, "dpack_more/inner.py": ("dpack_more.inner", "Iota"), "dpack_more/nested/__init__.py": None, "dpack_more/nested/leaf.py": ("dpack_more.nested.leaf", "Kappa"),
 }
-DISK_LIBS = ["dl", "dlib", "dlib_extra", "dlib_more", "dlibx", "dpack", "dpack.sub", "dlib_extra.inner", "dpack.inner"]
+DISK_LIBS = ["dl", "dlib", "dlib_extra", "dlib_more", "dlibx", "dpack", "dpack.sub", "dlib_extra.inner", "dpack.inner", "dpack_more", "dpack_more.nested"]
 
 DISK_RUNNER = r'''
 import sys, json
@@ -174,6 +175,9 @@ def disk_histories(ctx, scratch):
         return sorted(table)
 
     seqs = [[["dl"], ["dlib"], ["dlib_extra"], ["dlib_more"], ["dlibx"], ["dpack.sub"], ["dpack"]],
+            [["dpack"], ["dpack_more"], ["dpack_more.nested"], ["dlib_extra"], ["dlib"]], [["dlib", "dpack"], ["dpack_more", "dpack"], ["dpack_more"]],
+            # a request refused for a duplicate command is refused again when repeated (and again after other requests)
+            [["dlib", "dpack"], ["dlib", "dpack"], ["dlib"], ["dlib", "dpack"]], [BUILTIN[1:3], BUILTIN[1:3], [BUILTIN[1]], BUILTIN[1:3]],
             [["dlib"], ["dlib_extra", "dlib_more"], ["dlib"]], [[], ["dlib"], []], ["default", [], ["dlib"], "default"], [["dpack"], ["dpack.sub"], ["dlib_extra.inner"], ["dlib_extra"]]]
     for _ in range(ctx.budget(8, 200)):
         seq = []
@@ -216,6 +220,7 @@ def run(ctx):
         [["c", ["mpilot.libraries.eems"]], ["c", ["mpilot.libraries.eems.csv"]], ["d", "ulib", "EEMSRead", 1], ["c", ["mpilot.libraries.eems.netcdf"]], ["c", ["ulib", "mpilot.libraries.eems.csv"]]],
         [["d", "ulib", "Alpha", 1], ["c", ["ulib"]], ["d", "ulib", "Alpha", 2], ["c", ["ulib"]], ["d", "vlib", "Alpha", 3], ["c", ["ulib"]], ["c", ["vlib", "ulib"]]],
         [["c", []], ["d", "ulib", "Alpha", 1], ["c", []], ["c", ["ulib"]], ["c", []]],
+        [["d", "ulib", "Alpha", 1], ["d", "vlib", "Alpha", 2], ["c", ["ulib", "vlib"]], ["c", ["ulib", "vlib"]], ["c", ["vlib"]], ["c", ["ulib", "vlib"]], ["c", ["vlib", "ulib"]]],
         # commands defined after a Program for the same request was built (a plug-in registered late, a class defined in __main__): the next Program sees them
         [["c", ["ulib"]], ["d", "ulib", "Alpha", 1], ["c", ["ulib"]], ["d", "ulib.sub", "Beta", 2], ["c", ["ulib"]], ["d", "ulibx", "Gamma", 3], ["c", ["ulib"]]],
         [["c", ["vlib", "ulib"]], ["d", "vlib.a", "Alpha", 1], ["c", ["vlib", "ulib"]], ["d", "ulib", "Alpha", 2], ["c", ["vlib", "ulib"]], ["c", ["ulib", "vlib"]]],
